@@ -135,13 +135,21 @@ Proof.
   destruct (existsb _ (x :: y :: r)); split; intro H; try reflexivity; discriminate.
 Qed.
 
-Lemma cmd_single_crit i t oc : r_crit t = true ->
+(* one target: its own response, classified by its critical trait *)
+Lemma cmd_single i t oc :
   classify (consolidate (commit [(i, t)] oc)) = ROk <-> crit_acked_l [(i, t)] oc.
 Proof.
-  intro Hc. cbn. unfold resp_err, crit_acked_l. destruct (is_ack (oc_at oc i)) eqn:E; cbn.
-  - split; [|reflexivity]. intros _ j u [X|[]] _. inversion X; subst. apply is_ack_iff, E.
-  - split; [discriminate|]. intro H. specialize (H i t (or_introl eq_refl) Hc).
-    apply is_ack_iff in H. congruence.
+  rewrite <- existsb_commit_crit. cbn. rewrite orb_false_r.
+  destruct (r_crit t && resp_err (oc_at oc i)); split; intro H; try reflexivity; discriminate.
+Qed.
+
+Lemma classify_commit tg oc : tg <> [] ->
+  classify (consolidate (commit tg oc)) = ROk <-> crit_acked_l tg oc.
+Proof.
+  intro Hne. destruct tg as [|[i t] [|b tg]].
+  - congruence.
+  - apply cmd_single.
+  - apply cmd_multi. cbn. lia.
 Qed.
 
 Definition has_crit_target (ts : list rtask) : bool := existsb (fun p => r_crit (snd p)) (targets ts).
@@ -149,19 +157,14 @@ Definition has_crit_target (ts : list rtask) : bool := existsb (fun p => r_crit 
 Lemma res_ok_iff r : res_ok r = true <-> r = ROk.
 Proof. destruct r; cbn; split; intro H; try reflexivity; discriminate. Qed.
 
-(* the decision on a list of targets: exact when a critical task is commanded or at least two
-   tasks are commanded *)
-Lemma cmd_iff_partial ts oc :
-  has_crit_target ts = true \/ (2 <= length (targets ts))%nat ->
-  (res_ok (cmd_result ts oc) = true <-> crit_acked ts oc).
+(* the decision: the command goes through iff every critical commanded task acknowledged; for
+   every task list (no target, one target, several) *)
+Lemma cmd_iff ts oc : res_ok (cmd_result ts oc) = true <-> crit_acked ts oc.
 Proof.
-  unfold cmd_result, crit_acked, has_crit_target. rewrite res_ok_iff.
-  generalize (targets ts) as tg. intros tg H.
-  destruct tg as [|[i t] [|b tg]].
-  - destruct H as [H|H]; [discriminate|cbn in H; lia].
-  - destruct H as [H|H]; [|cbn in H; lia]. cbn in H. rewrite orb_false_r in H.
-    apply cmd_single_crit, H.
-  - apply cmd_multi. cbn. lia.
+  unfold cmd_result, crit_acked. rewrite res_ok_iff.
+  destruct (targets ts) as [|p tg] eqn:Et.
+  - split; [intros _ i t []|reflexivity].
+  - apply classify_commit. discriminate.
 Qed.
 
 (* a critical commanded task that does not acknowledge fails the command, whatever else *)
@@ -170,49 +173,21 @@ Lemma cmd_critical_failure_fails ts oc i t :
   res_ok (cmd_result ts oc) = false.
 Proof.
   intros Hin Hc Hna. destruct (res_ok (cmd_result ts oc)) eqn:E; [|reflexivity]. exfalso.
-  assert (Hs : has_crit_target ts = true \/ (2 <= length (targets ts))%nat).
-  { left. unfold has_crit_target. apply existsb_exists. exists (i, t). split; [exact Hin|exact Hc]. }
-  apply (cmd_iff_partial ts oc Hs) in E. apply Hna. exact (E i t Hin Hc).
+  apply cmd_iff in E. apply Hna. exact (E i t Hin Hc).
 Qed.
 
-(* no target: the response is nil and the command fails, whatever the tasks would do *)
-Lemma cmd_zero_targets ts oc : targets ts = [] -> cmd_result ts oc = RErrNil.
+(* no target: the command succeeds at once, whatever the tasks would do *)
+Lemma cmd_zero_targets ts oc : targets ts = [] -> cmd_result ts oc = ROk.
 Proof. unfold cmd_result. intros ->. reflexivity. Qed.
 
-(* exactly one target: its error fails the command, critical or not *)
-Lemma cmd_single_target ts oc i t : targets ts = [(i, t)] ->
-  cmd_result ts oc = if is_ack (oc_at oc i) then ROk else RErrSingle.
-Proof. unfold cmd_result. intros ->. cbn. unfold resp_err. destruct (is_ack (oc_at oc i)); reflexivity. Qed.
-
-(* the shape condition of [cmd_iff_partial] is necessary *)
-Lemma cmd_shape_exact ts :
-  (forall oc, res_ok (cmd_result ts oc) = true <-> crit_acked ts oc) ->
-  has_crit_target ts = true \/ (2 <= length (targets ts))%nat.
-Proof.
-  intro H. destruct (targets ts) as [|[i t] [|b tg]] eqn:E.
-  - exfalso. specialize (H []). rewrite (cmd_zero_targets ts [] E) in H. cbn in H.
-    assert (X : false = true); [|discriminate]. apply H. unfold crit_acked. rewrite E. intros ? ? [].
-  - destruct (r_crit t) eqn:Hc.
-    + left. unfold has_crit_target. rewrite E. cbn. rewrite Hc. reflexivity.
-    + exfalso. specialize (H (repeat Ack i ++ [ErrSrc])).
-      rewrite (cmd_single_target ts _ i t E) in H.
-      assert (Hn : oc_at (repeat Ack i ++ [ErrSrc]) i = ErrSrc).
-      { unfold oc_at. rewrite app_nth2; rewrite repeat_length; [|lia].
-        replace (i - i)%nat with 0%nat by lia. reflexivity. }
-      rewrite Hn in H. cbn in H.
-      assert (X : false = true); [|discriminate]. apply H. unfold crit_acked. rewrite E.
-      intros j u [X|[]] Hu. inversion X; subst. congruence.
-  - right. cbn. lia.
-Qed.
-
-(* with at least two targets, what the non-critical ones do is irrelevant *)
-Lemma cmd_noncritical_inert ts oc oc' : (2 <= length (targets ts))%nat ->
+(* what the non-critical tasks do is irrelevant *)
+Lemma cmd_noncritical_inert ts oc oc' :
   (forall i t, In (i, t) (targets ts) -> r_crit t = true -> oc_at oc i = oc_at oc' i) ->
   res_ok (cmd_result ts oc) = res_ok (cmd_result ts oc').
 Proof.
-  intros Hlen Hsame.
+  intros Hsame.
   assert (Hiff : res_ok (cmd_result ts oc) = true <-> res_ok (cmd_result ts oc') = true).
-  { rewrite !(cmd_iff_partial ts _ (or_intror Hlen)). unfold crit_acked. split; intros H i t Hin Hc.
+  { rewrite !cmd_iff. unfold crit_acked. split; intros H i t Hin Hc.
     - rewrite <- (Hsame i t Hin Hc). exact (H i t Hin Hc).
     - rewrite (Hsame i t Hin Hc). exact (H i t Hin Hc). }
   destruct (res_ok (cmd_result ts oc)), (res_ok (cmd_result ts oc')); try reflexivity.
@@ -239,8 +214,15 @@ Proof.
   unfold commit in *. cbn [map fst snd]. rewrite IH. reflexivity.
 Qed.
 
+Lemma cmd_result_commit ts oc :
+  cmd_result ts oc = match commit (targets ts) oc with
+                     | [] => ROk
+                     | _ :: _ => classify (consolidate (commit (targets ts) oc))
+                     end.
+Proof. unfold cmd_result. destruct (targets ts); reflexivity. Qed.
+
 Lemma cmd_mode_host_irrelevant f ts oc : cmd_result (map (retag f) ts) oc = cmd_result ts oc.
-Proof. unfold cmd_result. rewrite commit_retag. reflexivity. Qed.
+Proof. rewrite !cmd_result_commit, commit_retag. reflexivity. Qed.
 
 (* ------------------------------------------------------------------ *)
 (* 4. Requests through the API                                         *)
@@ -260,52 +242,61 @@ Lemma no_targets_false_of_In ts i t : In (i, t) (targets ts) -> no_targets ts = 
 Proof. unfold no_targets. intro H. destruct (targets ts); [destruct H|reflexivity]. Qed.
 
 Lemma api_control_body e oc s :
-  s_env s = ev_src e -> is_configure e && no_targets (s_ts s) = false ->
-  api_control e oc s = cmd_body e oc s.
-Proof. intros Hsrc Hn. unfold api_control. rewrite Hsrc, estate_beq_refl, Hn. reflexivity. Qed.
+  s_env s = ev_src e -> api_control e oc s = cmd_body e oc s.
+Proof. intros Hsrc. unfold api_control. rewrite Hsrc, estate_beq_refl. reflexivity. Qed.
 
 (* a critical commanded task that does not acknowledge: the environment ends in ERROR, the
-   destination is never published, the request returns (and, as coded, without an error) *)
+   destination is never published, the request returns with an error *)
 Lemma api_critical_failure e oc s i t :
   s_env s = ev_src e -> In (i, t) (targets (s_ts s)) -> r_crit t = true -> oc_at oc i <> Ack ->
   let (s', ob) := api_control e oc s in
   s_env s' = E_ERROR /\ o_state ob = 5 /\ o_hang ob = false /\
-  ~ In (N_of_estate (ev_dst e)) (o_reported ob) /\ o_err ob = false.
+  ~ In (N_of_estate (ev_dst e)) (o_reported ob) /\ o_err ob = true.
 Proof.
   intros Hsrc Hin Hc Hna.
-  rewrite api_control_body; [|exact Hsrc|rewrite (no_targets_false_of_In _ _ _ Hin); apply andb_false_r].
+  rewrite api_control_body by exact Hsrc.
   unfold cmd_body. rewrite (cmd_critical_failure_fails _ oc i t Hin Hc Hna). cbn.
   repeat split; try reflexivity. rewrite Hsrc. intros [H|[H|[]]].
   - apply N_of_estate_inj in H. symmetry in H. exact (ev_dst_src e H).
   - destruct e; discriminate.
 Qed.
 
-(* every failed command transition requested in the right state is answered without an error *)
-Lemma api_failure_not_returned e oc s :
-  s_env s = ev_src e -> is_configure e && no_targets (s_ts s) = false ->
-  res_ok (cmd_result (s_ts s) oc) = false ->
-  o_err (snd (api_control e oc s)) = false /\ o_state (snd (api_control e oc s)) = 5.
+(* every failed command transition requested in the right state is answered with an error and
+   the state ERROR *)
+Lemma api_failure_returned e oc s :
+  s_env s = ev_src e -> res_ok (cmd_result (s_ts s) oc) = false ->
+  o_err (snd (api_control e oc s)) = true /\ o_state (snd (api_control e oc s)) = 5.
 Proof.
-  intros Hsrc Hn Hf. rewrite (api_control_body e oc s Hsrc Hn). unfold cmd_body. rewrite Hf. split; reflexivity.
+  intros Hsrc Hf. rewrite (api_control_body e oc s Hsrc). unfold cmd_body. rewrite Hf. split; reflexivity.
 Qed.
 
 (* success: destination reached, published, no error *)
 Lemma api_success e oc s :
-  s_env s = ev_src e -> is_configure e && no_targets (s_ts s) = false ->
-  res_ok (cmd_result (s_ts s) oc) = true ->
+  s_env s = ev_src e -> res_ok (cmd_result (s_ts s) oc) = true ->
   let (s', ob) := api_control e oc s in
   s_env s' = ev_dst e /\ o_state ob = N_of_estate (ev_dst e) /\ o_err ob = false /\ o_hang ob = false /\
   In (N_of_estate (ev_dst e)) (o_reported ob).
 Proof.
-  intros Hsrc Hn Hf. rewrite (api_control_body e oc s Hsrc Hn). unfold cmd_body. rewrite Hf. cbn.
+  intros Hsrc Hf. rewrite (api_control_body e oc s Hsrc). unfold cmd_body. rewrite Hf. cbn.
   repeat split; try reflexivity. right. left. reflexivity.
 Qed.
 
-(* CONFIGURE with nothing to command never returns *)
-Lemma api_configure_nothing_hangs oc s :
-  s_env s = E_DEPLOYED -> targets (s_ts s) = [] ->
-  o_hang (snd (api_control CONFIGURE oc s)) = true.
-Proof. intros Hsrc Et. unfold api_control, no_targets. rewrite Hsrc, Et. reflexivity. Qed.
+(* a request always returns, in whatever state it is made *)
+Lemma api_never_hangs e oc s : o_hang (snd (api_control e oc s)) = false.
+Proof.
+  unfold api_control. destruct (negb (estate_beq (s_env s) (ev_src e))).
+  - destruct (go_error_ok (s_env s)); reflexivity.
+  - unfold cmd_body. destruct (res_ok (cmd_result (s_ts s) oc)); reflexivity.
+Qed.
+
+(* an answer without an error carries the destination state: no OK reply with state ERROR *)
+Lemma api_ok_reply_is_dst e oc s :
+  o_err (snd (api_control e oc s)) = false -> o_state (snd (api_control e oc s)) = N_of_estate (ev_dst e).
+Proof.
+  unfold api_control. destruct (negb (estate_beq (s_env s) (ev_src e))).
+  - destruct (go_error_ok (s_env s)); cbn; discriminate.
+  - unfold cmd_body. destruct (res_ok (cmd_result (s_ts s) oc)); cbn; [reflexivity|discriminate].
+Qed.
 
 (* ------------------------------------------------------------------ *)
 (* 5. Creation                                                         *)
@@ -363,19 +354,17 @@ Qed.
 
 (* what a failed creation looks like *)
 Lemma create_failed_obs ds nc ls oc :
-  fst (create ds nc ls oc) = None -> o_hang (snd (create ds nc ls oc)) = false ->
+  fst (create ds nc ls oc) = None ->
   let ob := snd (create ds nc ls oc) in
-  o_err ob = true /\ In 5 (o_reported ob) /\ ~ In 3 (o_reported ob) /\
+  o_err ob = true /\ o_hang ob = false /\ In 5 (o_reported ob) /\ ~ In 3 (o_reported ob) /\
   (deploy_ok (launch_all ds ls) nc = false -> ~ In 2 (o_reported ob)).
 Proof.
   unfold create. destruct (deploy_ok (launch_all ds ls) nc) eqn:Ed; cbn [negb].
-  - destruct (targets (launch_all ds ls)) eqn:Et; cbn.
+  - destruct (res_ok (cmd_result (launch_all ds ls) oc)); cbn; [discriminate|].
+    intros _. repeat split; try tauto.
+    + intros [H|[H|[H|[H|[]]]]]; discriminate.
     + discriminate.
-    + destruct (res_ok (cmd_result (launch_all ds ls) oc)); cbn; [discriminate|].
-      intros _ _. repeat split; try tauto.
-      * intros [H|[H|[H|[H|[]]]]]; discriminate.
-      * discriminate.
-  - cbn. intros _ _. repeat split; try tauto.
+  - cbn. intros _. repeat split; try tauto.
     + intros [H|[H|[H|[]]]]; discriminate.
     + intros _ [H|[H|[H|[]]]]; discriminate.
 Qed.
@@ -397,9 +386,7 @@ Proof.
       - unfold api_control in Es.
         destruct (negb (estate_beq (s_env s) (ev_src e))).
         + destruct (go_error_ok (s_env s)); inversion Es; subst; left; reflexivity.
-        + destruct (is_configure e && no_targets (s_ts s)).
-          * inversion Es; subst. right. reflexivity.
-          * unfold cmd_body in Es. destruct (res_ok (cmd_result (s_ts s) oc)); inversion Es; subst; left; reflexivity.
+        + unfold cmd_body in Es. destruct (res_ok (cmd_result (s_ts s) oc)); inversion Es; subst; left; reflexivity.
       - unfold idle_kill in Es. inversion Es; subst. left. reflexivity. }
     destruct pre as [|p pre].
     + cbn in H. inversion H; subst ob0. clear H.
@@ -513,42 +500,53 @@ Proof. rewrite targets_ready. unfold indexed. rewrite indexed_from_length, map_l
 Definition created (ds : list tdesc) (nc : N) (ls : list launch) (oc : list outc) : bool :=
   match fst (create ds nc ls oc) with Some _ => true | None => false end.
 
-(* creation succeeds iff every critical task launched and acknowledged CONFIGURE — provided
-   every non-critical task launched too, and the CONFIGURE command has a critical target or at
-   least two targets *)
+(* creation, exactly: the workflow has a role, every task (critical or not) launched, and every
+   critical task acknowledged CONFIGURE *)
+Lemma create_exact ds nc ls oc :
+  created ds nc ls oc = true <->
+  (ds <> [] \/ nc <> 0) /\ all_launch_ok ds ls = true /\ crit_cfg_ok_from 0 ds oc = true.
+Proof.
+  unfold created, create.
+  destruct (deploy_ok (launch_all ds ls) nc) eqn:Ed; cbn [negb].
+  - apply deploy_ok_iff in Ed. destruct Ed as [Hne Hall].
+    rewrite (launch_all_ready ds ls Hall).
+    pose proof (cmd_iff (map ready ds) oc) as Hiff. rewrite crit_acked_ready in Hiff.
+    destruct (res_ok (cmd_result (map ready ds) oc)) eqn:Er; cbn.
+    + split; [intros _; split; [exact Hne|split; [exact Hall|apply Hiff; reflexivity]]|reflexivity].
+    + split; [discriminate|]. intros (_ & _ & H). apply Hiff in H. discriminate.
+  - cbn. split; [discriminate|]. intros (Hne & Hall & _). exfalso.
+    assert (X : deploy_ok (launch_all ds ls) nc = true); [|congruence].
+    apply deploy_ok_iff. split; assumption.
+Qed.
+
+(* creation succeeds iff every critical task launched and acknowledged CONFIGURE — provided the
+   workflow has a role and every non-critical task launched too *)
 Lemma create_iff_partial ds nc ls oc :
   noncrit_launch_ok ds ls = true ->
-  existsb t_crit ds = true \/ (2 <= length ds)%nat ->
+  ds <> [] \/ nc <> 0 ->
   (created ds nc ls oc = true <-> crit_launch_ok ds ls = true /\ crit_cfg_ok_from 0 ds oc = true).
 Proof.
-  intros Hnon Hshape. unfold created, create.
-  assert (Hne : ds <> []).
-  { destruct ds; [|discriminate]. destruct Hshape as [H|H]; [discriminate|cbn in H; lia]. }
-  destruct (deploy_ok (launch_all ds ls) nc) eqn:Ed; cbn [negb].
-  - apply deploy_ok_iff in Ed. destruct Ed as [_ Hall].
-    rewrite (launch_all_ready ds ls Hall).
-    assert (Hc : crit_launch_ok ds ls = true) by (apply all_launch_ok_crit, Hall).
-    assert (Hs : has_crit_target (map ready ds) = true \/ (2 <= length (targets (map ready ds)))%nat).
-    { rewrite has_crit_target_ready, targets_ready_length. exact Hshape. }
-    pose proof (cmd_iff_partial (map ready ds) oc Hs) as Hiff. rewrite crit_acked_ready in Hiff.
-    destruct (targets (map ready ds)) eqn:Et.
-    + exfalso. pose proof (targets_ready_length ds) as Hl. rewrite Et in Hl. cbn in Hl.
-      destruct ds; [congruence|cbn in Hl; lia].
-    + destruct (res_ok (cmd_result (map ready ds) oc)) eqn:Er; cbn.
-      * split; [intros _; split; [exact Hc|apply Hiff; reflexivity]|reflexivity].
-      * split; [discriminate|]. intros [_ H]. apply Hiff in H. discriminate.
-  - cbn. split; [discriminate|]. intros [Hc _]. exfalso.
-    assert (X : deploy_ok (launch_all ds ls) nc = true); [|congruence].
-    apply deploy_ok_iff. split; [left; exact Hne|]. rewrite all_launch_split, Hc, Hnon. reflexivity.
+  intros Hnon Hne. rewrite create_exact, all_launch_split, Hnon, andb_true_r. tauto.
+Qed.
+
+(* both extra hypotheses are necessary: without them creation fails whatever the critical tasks do *)
+Lemma create_needs_role ls oc : created [] 0 ls oc = false.
+Proof. reflexivity. Qed.
+
+Lemma create_needs_noncrit ds nc ls oc : noncrit_launch_ok ds ls = false -> created ds nc ls oc = false.
+Proof.
+  intro Hn. destruct (created ds nc ls oc) eqn:E; [|reflexivity].
+  apply create_exact in E. destruct E as (_ & Hall & _).
+  rewrite all_launch_split, Hn, andb_false_r in Hall. discriminate.
 Qed.
 
 (* ------------------------------------------------------------------ *)
 (* 8. Bridge: the monitor on the model's own behaviour                 *)
 (* ------------------------------------------------------------------ *)
-(* On what the model does, the monitor reports nothing but the recorded classes 3..8: any other
-   class seen on the implementation means the implementation left the model. *)
+(* On what the model does, the monitor reports nothing but the recorded classes 6 and 7 (DEPLOY):
+   any other class seen on the implementation means the implementation left the model. *)
 
-Definition allowed02 : list N := [0; 3; 4; 5; 6; 7; 8].
+Definition allowed02 : list N := [0; 6; 7].
 
 Lemma stat_active_view t : stat_active (N_of_state (r_st t), N_of_status (r_stat t)) = active t.
 Proof. unfold stat_active, active. cbn. destruct (r_stat t); reflexivity. Qed.
@@ -597,16 +595,6 @@ Proof.
     split; [exact Ha|]. apply (H i t); [apply targets_In; split; assumption|exact Hc].
 Qed.
 
-Lemma single_noncrit ts oc i t :
-  targets ts = [(i, t)] -> r_crit t = false -> is_ack (oc_at oc i) = false ->
-  single_noncrit_failure (map r_d ts) (cmded_view ts) oc = true.
-Proof.
-  intros Et Hc Hna. unfold single_noncrit_failure, cmded_view. rewrite Et. cbn [map fst].
-  rewrite Nat2N.id. assert (Hin : In (i, t) (targets ts)) by (rewrite Et; left; reflexivity).
-  apply targets_In in Hin. destruct Hin as [Hn _].
-  rewrite nth_error_map, Hn. cbn. unfold r_crit in Hc. rewrite Hc, Hna. reflexivity.
-Qed.
-
 Lemma N_of_estate_eqb a b : N.eqb (N_of_estate a) (N_of_estate b) = estate_beq a b.
 Proof. destruct a, b; reflexivity. Qed.
 
@@ -624,86 +612,30 @@ Lemma In_allowed_0 : In 0 allowed02. Proof. cbn; tauto. Qed.
 (* one command request made in the right state *)
 Lemma mon_cmd_model e oc s :
   crit_active (s_ts s) -> s_env s = ev_src e ->
-  In (mon_cmd (map r_d (s_ts s)) (tasks_view (s_ts s)) (N_of_estate (s_env s)) e oc
-              (snd (api_control e oc s))) allowed02.
+  mon_cmd (map r_d (s_ts s)) (tasks_view (s_ts s)) (N_of_estate (s_env s)) e oc
+          (snd (api_control e oc s)) = 0.
 Proof.
   intros Hca Hsrc. unfold mon_cmd. rewrite Hsrc, N.eqb_refl. cbn [negb].
   pose proof (expected_iff_acked (s_ts s) oc Hca) as Hexp.
   assert (Hcm : list_eqb N.eqb (cmded_view (s_ts s)) (active_positions (tasks_view (s_ts s))) = true).
   { rewrite active_positions_view. apply list_eqb_spec; [intros x y; apply N.eqb_eq|reflexivity]. }
-  destruct (is_configure e && no_targets (s_ts s)) eqn:En.
-  - (* CONFIGURE with nothing to command: hangs *)
-    apply andb_true_iff in En. destruct En as [Ec Ent]. destruct e; try discriminate.
-    unfold api_control. rewrite Hsrc. cbn [estate_beq ev_src negb is_configure andb]. rewrite Ent.
-    cbn [snd o_cmded o_hang o_state o_err o_reported negb andb].
-    unfold no_targets in Ent. destruct (targets (s_ts s)) eqn:Et; [|discriminate].
-    assert (Hexp1 : crit_all_ok (map r_d (s_ts s)) (tasks_view (s_ts s)) oc = true).
-    { apply Hexp. unfold crit_acked. rewrite Et. intros ? ? []. }
-    rewrite Hexp1, andb_false_r. cbn. tauto.
-  - rewrite (api_control_body e oc s Hsrc En). unfold cmd_body. rewrite Hsrc.
-    destruct (res_ok (cmd_result (s_ts s) oc)) eqn:Er; cbn [snd o_cmded o_hang o_state o_err o_reported];
-      rewrite Hcm; cbn [negb andb].
-    + (* the command went through *)
-      rewrite N.eqb_refl, dst_in_ok. cbn [negb andb].
-      destruct (crit_all_ok (map r_d (s_ts s)) (tasks_view (s_ts s)) oc) eqn:Ee; [cbn; tauto|].
-      exfalso. destruct (targets (s_ts s)) as [|[i t] tg] eqn:Et.
-      * rewrite (cmd_zero_targets _ oc Et) in Er. discriminate.
-      * assert (Hs : has_crit_target (s_ts s) = true \/ (2 <= length (targets (s_ts s)))%nat \/
-                     (r_crit t = false /\ tg = [])).
-        { destruct tg as [|b tg]; [|right; left; rewrite Et; cbn; lia].
-          destruct (r_crit t) eqn:Hc; [left|right; right; split; reflexivity].
-          unfold has_crit_target. rewrite Et. cbn. rewrite Hc. reflexivity. }
-        destruct Hs as [Hs|[Hs|[Hh Htg]]].
-        -- apply (cmd_iff_partial _ oc (or_introl Hs)) in Er. apply Hexp in Er. congruence.
-        -- apply (cmd_iff_partial _ oc (or_intror Hs)) in Er. apply Hexp in Er. congruence.
-        -- assert (X : false = true); [|discriminate].
-           apply Hexp. unfold crit_acked. rewrite Et, Htg. intros j u [E|[]] Hu. inversion E; subst. congruence.
-    + (* the command failed *)
-      rewrite dst_neq_5. cbn [andb negb].
-      destruct (crit_all_ok (map r_d (s_ts s)) (tasks_view (s_ts s)) oc) eqn:Ee.
-      * clear Ee. assert (Ee : crit_acked (s_ts s) oc) by (apply Hexp; reflexivity).
-        destruct (targets (s_ts s)) as [|[i t] [|b tg]] eqn:Et.
-        -- unfold cmded_view. rewrite Et. cbn. tauto.
-        -- destruct (r_crit t) eqn:Hc.
-           ++ exfalso. assert (Hs : has_crit_target (s_ts s) = true).
-              { unfold has_crit_target. rewrite Et. cbn. rewrite Hc. reflexivity. }
-              apply (cmd_iff_partial _ oc (or_introl Hs)) in Ee. congruence.
-           ++ rewrite (cmd_single_target _ oc i t Et) in Er.
-              destruct (is_ack (oc_at oc i)) eqn:Ea; [discriminate|].
-              rewrite (single_noncrit _ oc i t Et Hc Ea).
-              unfold cmded_view. rewrite Et. cbn. tauto.
-        -- exfalso. assert (Hs : (2 <= length (targets (s_ts s)))%nat) by (rewrite Et; cbn; lia).
-           apply (cmd_iff_partial _ oc (or_intror Hs)) in Ee. congruence.
-      * rewrite dst_not_in_failed. cbn. tauto.
+  rewrite (api_control_body e oc s Hsrc). unfold cmd_body. rewrite Hsrc.
+  destruct (res_ok (cmd_result (s_ts s) oc)) eqn:Er; cbn [snd o_cmded o_hang o_state o_err o_reported];
+    rewrite Hcm; cbn [negb andb].
+  - (* the command went through *)
+    rewrite N.eqb_refl, dst_in_ok. cbn [negb andb].
+    destruct (crit_all_ok (map r_d (s_ts s)) (tasks_view (s_ts s)) oc) eqn:Ee; [reflexivity|].
+    exfalso. apply cmd_iff in Er. apply Hexp in Er. congruence.
+  - (* the command failed *)
+    rewrite dst_neq_5. cbn [andb negb].
+    destruct (crit_all_ok (map r_d (s_ts s)) (tasks_view (s_ts s)) oc) eqn:Ee.
+    + exfalso. pose proof (proj1 Hexp eq_refl) as Ha. apply cmd_iff in Ha. congruence.
+    + rewrite dst_not_in_failed. reflexivity.
 Qed.
 
-(* a command that went through had all its critical targets acknowledging (no condition) *)
+(* a command that went through had all its critical targets acknowledging *)
 Lemma cmd_ok_acked ts oc : res_ok (cmd_result ts oc) = true -> crit_acked ts oc.
-Proof.
-  intro Er. destruct (targets ts) as [|[i t] [|b tg]] eqn:Et.
-  - rewrite (cmd_zero_targets _ oc Et) in Er. discriminate.
-  - destruct (r_crit t) eqn:Hc.
-    + apply (cmd_iff_partial ts oc); [|exact Er]. left. unfold has_crit_target. rewrite Et. cbn. rewrite Hc. reflexivity.
-    + unfold crit_acked. rewrite Et. intros j u [E|[]] Hu. inversion E; subst. congruence.
-  - apply (cmd_iff_partial ts oc); [|exact Er]. right. rewrite Et. cbn. lia.
-Qed.
-
-(* a command that failed although all critical targets acknowledged had no target, or a single
-   non-critical one that failed *)
-Lemma cmd_fail_acked ts oc : res_ok (cmd_result ts oc) = false -> crit_acked ts oc ->
-  targets ts = [] \/ exists i t, targets ts = [(i, t)] /\ r_crit t = false /\ is_ack (oc_at oc i) = false.
-Proof.
-  intros Er Ha. destruct (targets ts) as [|[i t] [|b tg]] eqn:Et.
-  - left. reflexivity.
-  - right. exists i, t. destruct (r_crit t) eqn:Hc.
-    + exfalso. assert (Hs : has_crit_target ts = true).
-      { unfold has_crit_target. rewrite Et. cbn. rewrite Hc. reflexivity. }
-      apply (cmd_iff_partial _ oc (or_introl Hs)) in Ha. congruence.
-    + rewrite (cmd_single_target _ oc i t Et) in Er.
-      destruct (is_ack (oc_at oc i)); [discriminate|]. repeat split; reflexivity.
-  - exfalso. assert (Hs : (2 <= length (targets ts))%nat) by (rewrite Et; cbn; lia).
-    apply (cmd_iff_partial _ oc (or_intror Hs)) in Ha. congruence.
-Qed.
+Proof. apply cmd_iff. Qed.
 
 Lemma task_after_rd e o t : r_d (task_after e o t) = r_d t.
 Proof. destruct o; reflexivity. Qed.
@@ -748,23 +680,14 @@ Proof.
   - pose proof (proj1 (deploy_ok_iff ds nc ls) Ed) as [Hne Hall].
     rewrite (launch_all_ready ds ls Hall).
     pose proof (all_launch_ok_crit ds ls Hall) as Hlc.
-    destruct (targets (map ready ds)) as [|p tg] eqn:Et.
-    + (* no task: CONFIGURE hangs *)
-      assert (Hds : ds = []).
-      { pose proof (targets_ready_length ds) as Hl. rewrite Et in Hl. destruct ds; [reflexivity|discriminate]. }
-      subst ds. cbn. tauto.
-    + assert (Et' : targets (map ready ds) <> []) by (rewrite Et; discriminate).
-      destruct (res_ok (cmd_result (map ready ds) oc)) eqn:Er; unfold mon_create;
-        cbn [snd o_state o_err o_hang o_reported o_cmded]; rewrite Hlc; cbn [andb negb].
-      * (* created *)
-        pose proof (proj1 (crit_acked_ready ds oc) (cmd_ok_acked _ oc Er)) as Hk. rewrite Hk. cbn. tauto.
-      * (* CONFIGURE failed *)
-        destruct (crit_cfg_ok_from 0 ds oc) eqn:Ek.
-        -- apply crit_acked_ready in Ek. destruct (cmd_fail_acked _ oc Er Ek) as [H0|(i & t & H1 & Hc & Ha)].
-           ++ congruence.
-           ++ pose proof (single_noncrit _ oc i t H1 Hc Ha) as Hs. rewrite map_rd_ready in Hs.
-              cbn. rewrite Hs. tauto.
-        -- cbn. tauto.
+    destruct (res_ok (cmd_result (map ready ds) oc)) eqn:Er; unfold mon_create;
+      cbn [snd o_state o_err o_hang o_reported o_cmded]; rewrite Hlc; cbn [andb negb].
+    + (* created *)
+      pose proof (proj1 (crit_acked_ready ds oc) (cmd_ok_acked _ oc Er)) as Hk. rewrite Hk. cbn. tauto.
+    + (* CONFIGURE failed *)
+      destruct (crit_cfg_ok_from 0 ds oc) eqn:Ek.
+      * exfalso. apply crit_acked_ready in Ek. apply cmd_iff in Ek. congruence.
+      * cbn. tauto.
   - (* DEPLOY failed *)
     unfold mon_create. cbn [snd o_state o_err o_hang o_reported o_cmded].
     destruct (crit_launch_ok ds ls && crit_cfg_ok_from 0 ds oc) eqn:Ee.
@@ -811,15 +734,13 @@ Proof.
   intros (Hds & Hca & Hlive). destruct o as [e oc|i]; cbn [step mon_step].
   - destruct (estate_beq (s_env s) (ev_src e)) eqn:Es.
     + apply estate_beq_iff in Es. split.
-      * subst ds. apply mon_cmd_model; assumption.
-      * destruct (is_configure e && no_targets (s_ts s)) eqn:En.
-        -- unfold api_control. rewrite Es, estate_beq_refl, En. cbn. discriminate.
-        -- rewrite (api_control_body e oc s Es En). unfold cmd_body.
-           destruct (res_ok (cmd_result (s_ts s) oc)) eqn:Er; cbn; [|discriminate].
-           intros _. split; [|split; reflexivity]. split; [|split].
-           ++ cbn. rewrite tasks_after_rd. exact Hds.
-           ++ cbn. apply cmd_ok_preserves_crit_active; assumption.
-           ++ cbn. destruct e; reflexivity.
+      * subst ds. rewrite mon_cmd_model by assumption. apply In_allowed_0.
+      * rewrite (api_control_body e oc s Es). unfold cmd_body.
+        destruct (res_ok (cmd_result (s_ts s) oc)) eqn:Er; cbn; [|discriminate].
+        intros _. split; [|split; reflexivity]. split; [|split].
+        -- cbn. rewrite tasks_after_rd. exact Hds.
+        -- cbn. apply cmd_ok_preserves_crit_active; assumption.
+        -- cbn. destruct e; reflexivity.
     + split.
       * unfold mon_cmd. rewrite N_of_estate_eqb, Es. cbn. tauto.
       * unfold api_control. rewrite Es. cbn [negb]. rewrite Hlive. cbn. discriminate.
@@ -886,7 +807,6 @@ Proof.
     destruct (deploy_ok (launch_all (i_tasks i) (i_launch i)) (i_ncalls i)) eqn:Ed; cbn [negb] in Ec; [|discriminate].
     pose proof (proj1 (deploy_ok_iff _ _ _) Ed) as [_ Hall].
     rewrite (launch_all_ready _ _ Hall) in Ec.
-    destruct (targets (map ready (i_tasks i))); [discriminate|].
     destruct (res_ok (cmd_result (map ready (i_tasks i)) (i_cfg i))) eqn:Er; [|discriminate].
     inversion Ec; subst s ob. clear Ec. cbn [o_tasks o_state] in Hin.
     apply (mon_ops_model (i_tasks i) (i_ops i)
@@ -906,40 +826,40 @@ Qed.
 Definition reached (e : cev) (ob : step_obs) : Prop :=
   o_state ob = N_of_estate (ev_dst e) /\ o_hang ob = false /\ o_err ob = false.
 
-Lemma shape_no_targets ts :
-  has_crit_target ts = true \/ (2 <= length (targets ts))%nat -> no_targets ts = false.
-Proof.
-  unfold has_crit_target, no_targets. destruct (targets ts); [|reflexivity].
-  intros [H|H]; [discriminate|cbn in H; lia].
-Qed.
-
-Lemma api_iff_partial e oc s :
+(* a request made in the right state reaches its destination iff every critical commanded task
+   acknowledged *)
+Lemma api_iff e oc s :
   s_env s = ev_src e ->
-  has_crit_target (s_ts s) = true \/ (2 <= length (targets (s_ts s)))%nat ->
   (reached e (snd (api_control e oc s)) <-> crit_acked (s_ts s) oc).
 Proof.
-  intros Hsrc Hs. rewrite <- (cmd_iff_partial _ oc Hs).
-  rewrite api_control_body; [|exact Hsrc|rewrite (shape_no_targets _ Hs); apply andb_false_r].
+  intros Hsrc. rewrite <- (cmd_iff _ oc).
+  rewrite api_control_body by exact Hsrc.
   unfold cmd_body, reached. destruct (res_ok (cmd_result (s_ts s) oc)); cbn.
   - split; [reflexivity|]. intros _. repeat split; reflexivity.
   - split; [|discriminate]. intros [H _]. destruct e; discriminate.
 Qed.
 
-(* with nothing to command a request never reaches its destination *)
+(* with nothing to command a request reaches its destination, and nothing is commanded *)
 Lemma api_nothing_to_command e oc s :
-  s_env s = ev_src e -> targets (s_ts s) = [] -> ~ reached e (snd (api_control e oc s)).
+  s_env s = ev_src e -> targets (s_ts s) = [] ->
+  reached e (snd (api_control e oc s)) /\ o_cmded (snd (api_control e oc s)) = [].
 Proof.
-  intros Hsrc Et [Hst [Hh _]]. unfold api_control in *. rewrite Hsrc, estate_beq_refl in *. cbn [negb] in *.
-  unfold no_targets in *. rewrite Et in *. destruct e; cbn in *; try discriminate;
-    unfold cmd_body, cmd_result in *; rewrite Et in *; cbn in *; discriminate.
+  intros Hsrc Et. split.
+  - apply api_iff; [exact Hsrc|]. unfold crit_acked. rewrite Et. intros ? ? [].
+  - rewrite api_control_body by exact Hsrc. unfold cmd_body.
+    destruct (res_ok (cmd_result (s_ts s) oc)); cbn; unfold cmded_view; rewrite Et; reflexivity.
 Qed.
+
+(* failures confined to non-critical tasks never make a request fail *)
+Lemma api_noncritical_never_fails e oc s :
+  s_env s = ev_src e -> crit_acked (s_ts s) oc -> reached e (snd (api_control e oc s)).
+Proof. intros Hsrc H. apply api_iff; assumption. Qed.
 
 Lemma created_sound ds nc ls oc :
   created ds nc ls oc = true -> crit_launch_ok ds ls = true /\ crit_cfg_ok_from 0 ds oc = true.
 Proof.
   unfold created, create. destruct (deploy_ok (launch_all ds ls) nc) eqn:Ed; cbn [negb]; [|discriminate].
   pose proof (proj1 (deploy_ok_iff _ _ _) Ed) as [_ Hall]. rewrite (launch_all_ready _ _ Hall).
-  destruct (targets (map ready ds)); [discriminate|].
   destruct (res_ok (cmd_result (map ready ds) oc)) eqn:Er; [|discriminate]. intros _.
   split; [apply all_launch_ok_crit, Hall|apply crit_acked_ready, cmd_ok_acked, Er].
 Qed.
@@ -949,7 +869,6 @@ Lemma created_obs ds nc ls oc : created ds nc ls oc = true ->
   o_state ob = 3 /\ o_err ob = false /\ o_hang ob = false /\ In 3 (o_reported ob).
 Proof.
   unfold created, create. destruct (deploy_ok (launch_all ds ls) nc); cbn [negb]; [|discriminate].
-  destruct (targets (launch_all ds ls)); [discriminate|].
   destruct (res_ok (cmd_result (launch_all ds ls) oc)); [|discriminate]. intros _. cbn.
   repeat split; try reflexivity. right. right. left. reflexivity.
 Qed.
